@@ -164,7 +164,8 @@ def run_batch(ctx, tag, batch):
 
 
 def make_case(rng, label, ins, outs, body, n_steps=8):
-    hw, top = blocks.make_top('T_' + label, ins, outs, body)
+    clkname = random.Random(zlib.crc32(label.encode()) + 7).choice([None, None, 'clk50', 'CLOCK_50'])      # the implicit clock is not always called clk
+    hw, top = blocks.make_top('T_' + label, ins, outs, body, clkname=clkname)
     text = vlog.emit(top)
     nz = ('b',) if label in ('Div', 'Mod') else ()
     steps = blocks.stimulus(rng, ins, n_steps, nonzero=nz)
